@@ -2,6 +2,7 @@ package regex
 
 import (
 	stdErrors "errors"
+	"fmt"
 	"regexp"
 
 	"github.com/lucasjones/reggen"
@@ -79,7 +80,15 @@ func (s *Schema) Example() ([]byte, error) {
 // generator is not safe for concurrent use and advances with every call, and
 // the example of a type must not depend on how often it was asked for.
 func (s *Schema) generateExample() ([]byte, error) {
-	ex, err := s.exampleOnce.Do(func() ([]byte, error) {
+	ex, err := s.exampleOnce.Do(func() (ex []byte, err error) {
+		defer func() {
+			// The generator panics on some patterns it cannot serve (an empty
+			// character class, for one).
+			if r := recover(); r != nil {
+				e := errors.NewDocumentError(s.file, errors.Format(errors.ErrGeneric, fmt.Sprintf("example generator: %v", r)))
+				ex, err = nil, e
+			}
+		}()
 		g, err := reggen.NewGenerator(s.pattern)
 		if err != nil {
 			return nil, err
